@@ -2,6 +2,7 @@ import Pcore.Proofs.ObjectDefine
 import Pcore.Proofs.ObjectSchema
 import Pcore.Proofs.ObjectInitHash
 import Pcore.Proofs.ObjectClosure
+import Pcore.Model.ObjectParams
 import Pcore.Generated.ObjectSchema
 import Mathlib.Data.List.Perm.Subperm
 /-!
@@ -68,8 +69,19 @@ Full statement / proved / missing
                          lookup, `Get` and init-hashes.  The full statement is FALSE of model and code (known finding
                          C17-type-inithash-constant-undef): `C17_type_inithash_constant_undef` is the negation, replayed
                          on the implementation by the harness (class `reinit-constant-undef`).
-* missing altogether: functions, type parameters, annotations (implementation-only streams `@objd`, `@tparam`, `@iface`),
-  Go-reflected objects (`reflectedObject`).
+* type parameters    — inside the model (Model/ObjectParams: `newPosX`, `newNamedX`, `equalsX`; an instance carries the bindings
+                         of its type, `T[p => v]`).  `C17x_plain`: on a type without type parameters the X constructors and
+                         `Equals` ARE the plain ones (every theorem above applies); `C17x_get`: Get = given or default on any
+                         type; `C17x_equality`: the full equality statement with "same type" = same definition and same
+                         bindings; `C17x_pos_named` (FULL, a `def`): positional = named on parameterized types — FALSE of
+                         model and code (known finding C17-tparam-explicit-undef, negation
+                         `C17x_pos_named_explicit_default`); proved part `C17x_pos_named_partial`: … when no parameter's
+                         attribute is given its default explicitly.  Missing: the init-hash round trip on parameterized types
+                         (tested only), `IsInstance` of a parameterized type `T[p => v]` itself (implementation-only `@tparam`).
+* the attribute-type alphabet is Integer, String, Boolean, Float, Any, Undef, Optional[T], NotUndef[T], Variant[A,B], Array[T]
+  (`inst`, `asg`, `tyInit` tied to pcore by the ops `tinst` / `asg` on every pair of 85 type expressions).
+* missing altogether: functions, annotations (implementation-only streams `@objd`, `@iface`, `@ifacex`, `@fnover`),
+  Go-reflected objects (`reflectedObject`); the Go-implemented object types are checked on the implementation only (`@goobj`).
 -/
 namespace Pcore.Object
 
@@ -554,12 +566,12 @@ theorem C17_equals_total {o o' : Obj} (hw : WF o.typ) (hw' : WF o'.typ) (hv : Va
     exact ⟨_, equals_den hw.tailOpt hv.req hv'.req⟩
   · exact ⟨_, equals_cross (by simpa using ht) hw.tailOpt hw'.tailOpt hv.req hv'.req⟩
 
-/-- objects of ONE type: equal exactly when `Get` agrees on every equality attribute -/
-theorem equality_same {t : OType} {vs vs' : List Val} (hw : WF t) (hv : Valid { typ := t, values := vs })
+/-- objects of ONE type (`sameType = true`): equal exactly when `Get` agrees on every equality attribute -/
+theorem equalityWith_same {t : OType} {vs vs' : List Val} (hw : WF t) (hv : Valid { typ := t, values := vs })
     (hv' : Valid { typ := t, values := vs' }) :
-    equals { typ := t, values := vs } { typ := t, values := vs' } = .ok true ↔
+    equalsWith true { typ := t, values := vs } { typ := t, values := vs' } = .ok true ↔
       ∀ n ∈ eqAttrNames t, get { typ := t, values := vs } n = get { typ := t, values := vs' } n := by
-  rw [equals_den hw.tailOpt hv.req hv'.req]
+  rw [equalsWith_den hw.tailOpt hv.req hv'.req]
   simp only [Except.ok.injEq, List.all_eq_true, beq_iff_eq]
   constructor
   · intro hall n hn
@@ -576,16 +588,26 @@ theorem equality_same {t : OType} {vs vs' : List Val} (hw : WF t) (hv : Valid { 
     rw [get_pos hw.nodup hw.tailOpt hv.req ha, get_pos hw.nodup hw.tailOpt hv'.req ha] at this
     exact Except.ok.inj this
 
-/-- objects of DIFFERENT types: equal exactly when both types leave the type out of equality, compare equally many
-    attributes, and every equality attribute of the receiver is an equality attribute of the other type with the same value
-    (looked up by name) -/
-theorem equality_cross {t t' : OType} {vs vs' : List Val} (hne : tyEq t t' = false) (hw : WF t) (hw' : WF t')
+/-- objects of ONE type: equal exactly when `Get` agrees on every equality attribute -/
+theorem equality_same {t : OType} {vs vs' : List Val} (hw : WF t) (hv : Valid { typ := t, values := vs })
+    (hv' : Valid { typ := t, values := vs' }) :
+    equals { typ := t, values := vs } { typ := t, values := vs' } = .ok true ↔
+      ∀ n ∈ eqAttrNames t, get { typ := t, values := vs } n = get { typ := t, values := vs' } n := by
+  have h := equalityWith_same hw hv hv'
+  unfold equals
+  simp only [tyEq_refl]
+  exact h
+
+/-- objects of DIFFERENT types (`sameType = false`): equal exactly when both types leave the type out of equality, compare
+    equally many attributes, and every equality attribute of the receiver is an equality attribute of the other type with
+    the same value (looked up by name) -/
+theorem equalityWith_cross {t t' : OType} {vs vs' : List Val} (hw : WF t) (hw' : WF t')
     (hv : Valid { typ := t, values := vs }) (hv' : Valid { typ := t', values := vs' }) :
-    equals { typ := t, values := vs } { typ := t', values := vs' } = .ok true ↔
+    equalsWith false { typ := t, values := vs } { typ := t', values := vs' } = .ok true ↔
       (includesType t = false ∧ includesType t' = false ∧ (eqAttrNames t).length = (eqAttrNames t').length ∧
         ∀ n ∈ eqAttrNames t, n ∈ eqAttrNames t' ∧
           get { typ := t, values := vs } n = get { typ := t', values := vs' } n) := by
-  rw [equals_cross hne hw.tailOpt hw'.tailOpt hv.req hv'.req]
+  rw [equalsWith_cross hw.tailOpt hw'.tailOpt hv.req hv'.req]
   simp only [Except.ok.injEq, Bool.and_eq_true, Bool.not_eq_true', Bool.or_eq_false_iff, beq_iff_eq,
     List.all_eq_true, eqPositions_length]
   constructor
@@ -630,6 +652,17 @@ theorem equality_cross {t t' : OType} {vs vs' : List Val} (hne : tyEq t t' = fal
     rw [hbn] at h2'
     rw [get_pos hw.nodup hw.tailOpt hv.req ha, h2'] at hget
     exact Except.ok.inj hget
+
+theorem equality_cross {t t' : OType} {vs vs' : List Val} (hne : tyEq t t' = false) (hw : WF t) (hw' : WF t')
+    (hv : Valid { typ := t, values := vs }) (hv' : Valid { typ := t', values := vs' }) :
+    equals { typ := t, values := vs } { typ := t', values := vs' } = .ok true ↔
+      (includesType t = false ∧ includesType t' = false ∧ (eqAttrNames t).length = (eqAttrNames t').length ∧
+        ∀ n ∈ eqAttrNames t, n ∈ eqAttrNames t' ∧
+          get { typ := t, values := vs } n = get { typ := t', values := vs' } n) := by
+  have h := equalityWith_cross hw hw' hv hv'
+  unfold equals
+  simp only [hne]
+  exact h
 
 /-- FULL statement (after the fix "equality_include_type => false was ignored by Equals").  Objects compare equal exactly
     when their equality attributes are equal: for one type by `equality_same`; across types only when BOTH types say
@@ -766,6 +799,290 @@ theorem C17_assignable_closure {ds : List Def} {env : List OType} (h : defineAll
     isAssignable ti tj = true ↔ Relation.ReflTransGen (parentRel ds) i j := by
   have hg : GoodEnv ds env := by simpa using defineAll_good goodEnv_nil h
   exact isAssignable_closure hg hi j tj hj
+
+/-! ### instances of types that declare TYPE PARAMETERS (Model/ObjectParams) -/
+
+theorem pfh_result {t : OType} {es : List (String × Val)} (hm : namedMatches (attrInfo t) es = true) :
+    positionalFromHash (attrInfo t) es = .ok (trim (requiredCount t) (posAttrs t)
+      ((posAttrs t).map (fun a => (es.lookup a.name).getD a.implicitT))) := by
+  have hfill : fillAll es (posAttrs t) = .ok ((posAttrs t).map (fun a => (es.lookup a.name).getD a.implicitT)) := by
+    apply fillAll_eq
+    intro a ha
+    unfold namedMatches at hm
+    simp only [Bool.and_eq_true, List.all_eq_true, attrInfo_attrs] at hm
+    have := hm.2 a ha
+    simpa using this
+  unfold positionalFromHash
+  simp [hfill]
+
+theorem bindParams_plain {t : OType} (hp : isParameterized t = false) (es : List (String × Val)) (va : List Val) :
+    bindParams t es va = [] := by
+  have htp : typeParams t = [] := by simpa [isParameterized] using hp
+  unfold bindParams
+  rw [htp]
+  simp
+
+/-- on a type WITHOUT type parameters (none declared along the chain) the constructors and `Equals` of Model/ObjectParams
+    are those of Model/Object: every theorem above applies to the instances the driver builds -/
+theorem C17x_plain {t : OType} (hp : isParameterized t = false) :
+    (∀ vs, newPosX t vs = (match newPos t vs with | .ok o => .ok { obj := o, ext := [] } | .error c => .error c)) ∧
+    (∀ es h, newNamedX t es h =
+      (match newNamed t es h with | .ok o => .ok { obj := o, ext := [] } | .error c => .error c)) ∧
+    (∀ o o' : Obj, equalsX { obj := o, ext := [] } { obj := o', ext := [] } = equals o o') := by
+  have h1 : ∀ vs, newPosX t vs =
+      (match newPos t vs with | .ok o => .ok { obj := o, ext := [] } | .error c => .error c) := by
+    intro vs
+    unfold newPosX newPos
+    by_cases hm : posMatches (attrInfo t) vs = true <;> simp [hm, hp]
+  refine ⟨h1, ?_, ?_⟩
+  · intro es h
+    unfold newNamedX newNamed
+    by_cases hm : namedMatches (attrInfo t) es = true
+    · by_cases hc : coerceOk (attrInfo t) es = true
+      · simp only [hm, hc, if_true]
+        cases positionalFromHash (attrInfo t) es with
+        | error c => rfl
+        | ok va => simp [bindParams_plain hp]
+      · simp [hm, hc]
+    · simp only [hm, Bool.false_eq_true, if_false]
+      exact h1 _
+  · intro o o'
+    simp [equalsX, equals, sameTypeX]
+
+/-- what the positional constructor of ANY type (parameterized or not) builds: the values given, or — on a parameterized
+    type — the trimmed values of the hash `makeValueHash` makes of them; the same attribute values either way -/
+theorem newPosX_ok {t : OType} {vs : List Val} {o : PObj} (hw : WF t) (hn : newPosX t vs = .ok o) :
+    o.obj.typ = t ∧ Valid { typ := t, values := vs } ∧ requiredCount t ≤ o.obj.values.length ∧
+      den (posAttrs t) o.obj.values = den (posAttrs t) vs ∧
+      ((o.obj.values = vs ∧ o.ext = [] ∧ (vs = [] ∨ isParameterized t = false)) ∨
+       (o.obj.values = trim (requiredCount t) (posAttrs t) (den (posAttrs t) vs) ∧
+        o.ext = bindParams t (makeValueHash (posAttrs t) vs) o.obj.values)) := by
+  unfold newPosX at hn
+  by_cases hm : posMatches (attrInfo t) vs = true
+  · have hm' := hm
+    unfold posMatches at hm'
+    simp only [Bool.and_eq_true, attrInfo_required, attrInfo_attrs] at hm'
+    have hv : Valid { typ := t, values := vs } := ⟨of_decide_eq_true hm'.1, hm'.2⟩
+    simp only [hm, if_true] at hn
+    by_cases hp : (!vs.isEmpty && isParameterized t) = true
+    · simp only [hp, if_true] at hn
+      have hlen : vs.length ≤ (posAttrs t).length := allInst_length hv.inst
+      have hnm : namedMatches (attrInfo t) (makeValueHash (posAttrs t) vs) = true :=
+        namedMatches_initHash (o := { typ := t, values := vs }) hw hv
+      have hpf := pfh_result hnm
+      rw [map_mvh_eq_den hw.nodup hw.god hlen] at hpf
+      have hpf' : positionalFromHash (attrInfo t) (makeValueHash (attrInfo t).attrs vs) =
+          .ok (trim (requiredCount t) (posAttrs t) (den (posAttrs t) vs)) := hpf
+      rw [hpf'] at hn
+      simp only [Except.ok.injEq] at hn
+      subst hn
+      have hdl : (den (posAttrs t) vs).length = (posAttrs t).length := den_length hlen
+      refine ⟨rfl, hv, trim_length_ge _ _ _ (by have := hv.req; simp only at this; omega), ?_, Or.inr ⟨rfl, rfl⟩⟩
+      simp only
+      rw [den_trim hw.god, den_full (by omega)]
+    · simp only [hp, Bool.false_eq_true, if_false, Except.ok.injEq] at hn
+      subst hn
+      refine ⟨rfl, hv, hv.req, rfl, Or.inl ⟨rfl, rfl, ?_⟩⟩
+      simp only [Bool.and_eq_true, Bool.not_eq_true', not_and, Bool.not_eq_true] at hp
+      cases vs with
+      | nil => exact Or.inl rfl
+      | cons v vs' => exact Or.inr (hp (by simp))
+  · simp [hm] at hn
+
+theorem lookup_toHash_none {attrs : List Attr} {vs : List Val} {n : String} (h : ∀ a ∈ attrs, a.name ≠ n) :
+    (toHash attrs vs).lookup n = none := by
+  induction attrs generalizing vs with
+  | nil => simp [toHash]
+  | cons b bs ih =>
+    cases vs with
+    | nil => simp [toHash]
+    | cons v vs' =>
+      have hb : (n == b.name) = false := by
+        have := h b (by simp)
+        simpa using fun he => this he.symm
+      simp only [toHash, List.lookup, hb]
+      exact ih (fun a ha => h a (by simp [ha]))
+
+theorem bindParams_congr {t : OType} {es es' : List (String × Val)} {va va' : List Val}
+    (hl : ∀ q ∈ typeParams t, es.lookup q.1 = es'.lookup q.1) (hv : va.isEmpty = va'.isEmpty) :
+    bindParams t es va = bindParams t es' va' := by
+  unfold bindParams
+  rw [hv]
+  split
+  · rfl
+  · apply List.filterMap_congr
+    intro q hq
+    rw [hl q hq]
+
+theorem bindParams_nil (t : OType) (va : List Val) : bindParams t [] va = [] := by
+  unfold bindParams
+  split
+  · rfl
+  · rw [List.filterMap_eq_nil_iff]
+    intro q _
+    simp
+
+/-- no type parameter's attribute is given (positionally) the value that is its default -/
+def NoParamDefault (t : OType) (vs : List Val) : Prop :=
+  ∀ q ∈ typeParams t, ∀ (i : Nat) (a : Attr) (v : Val),
+    (posAttrs t)[i]? = some a → a.name = q.1 → vs[i]? = some v → skips a v = false
+
+/-- FULL statement for parameterized types: positional and named construction yield Equal objects (of the same
+    parameterized type).  FALSE of model and code — known finding C17-tparam-explicit-undef
+    (`C17x_pos_named_explicit_default`). -/
+def C17x_pos_named : Prop :=
+  ∀ (t : OType) (vs : List Val) (o : PObj) (h : Val), WF t → newPosX t vs = .ok o →
+    ∃ o', newNamedX t (toHash (posAttrs t) vs) h = .ok o' ∧ equalsX o o' = .ok true ∧ equalsX o' o = .ok true
+
+/-- proved part: … when no type parameter's attribute is given its default explicitly (`NoParamDefault`; trivially true of
+    a type without type parameters).  Then the named twin exists, has the same bindings (the same parameterized type),
+    denotes the same value at every position and is Equal in both directions.  Missing: exactly the finding. -/
+theorem C17x_pos_named_partial {t : OType} {vs : List Val} {o : PObj} (h : Val) (hw : WF t)
+    (hn : newPosX t vs = .ok o) (hnd : NoParamDefault t vs) :
+    ∃ o', newNamedX t (toHash (posAttrs t) vs) h = .ok o' ∧ equalsX o o' = .ok true ∧ equalsX o' o = .ok true ∧
+      den (posAttrs t) o'.obj.values = den (posAttrs t) o.obj.values ∧ o'.ext = o.ext := by
+  obtain ⟨ht, hv, hreq, hden, hcase⟩ := newPosX_ok hw hn
+  obtain ⟨⟨t', va⟩, ext⟩ := o
+  simp only at ht hreq hden hcase
+  subst ht
+  have hall := hv.inst
+  have hvreq := hv.req
+  simp only at hall hvreq
+  have hlen := allInst_length hall
+  have hm := namedMatches_toHash hw hvreq hall
+  have hc := coerceOk_toHash hw hall
+  have hpf := pfh_result hm
+  rw [map_toHash_eq_den hw.nodup hlen] at hpf
+  have hdl : (den (posAttrs t') vs).length = (posAttrs t').length := den_length hlen
+  have hden' : den (posAttrs t') (trim (requiredCount t') (posAttrs t') (den (posAttrs t') vs)) = den (posAttrs t') vs := by
+    rw [den_trim hw.god, den_full (by omega)]
+  have hk' : requiredCount t' ≤ (trim (requiredCount t') (posAttrs t') (den (posAttrs t') vs)).length :=
+    trim_length_ge _ _ _ (by omega)
+  -- the bindings of the named twin
+  have hext : bindParams t' (toHash (posAttrs t') vs) (trim (requiredCount t') (posAttrs t') (den (posAttrs t') vs)) = ext := by
+    rcases hcase with ⟨-, hx, hnp⟩ | ⟨hva, hx⟩
+    · rw [hx]
+      rcases hnp with hnil | hnp
+      · subst hnil
+        have : toHash (posAttrs t') [] = [] := by cases posAttrs t' <;> rfl
+        rw [this]
+        exact bindParams_nil _ _
+      · exact bindParams_plain hnp _ _
+    · rw [hx, hva]
+      apply bindParams_congr _ rfl
+      intro q hq
+      by_cases hex : ∃ (i : Nat) (a : Attr), (posAttrs t')[i]? = some a ∧ a.name = q.1
+      · obtain ⟨i, a, hi, han⟩ := hex
+        rw [← han, lookup_toHash hw.nodup hi, lookup_mvh hw.nodup hi]
+        cases hvi : vs[i]? with
+        | none => rfl
+        | some v => simp [hnd q hq i a v hi han hvi]
+      · have hno : ∀ a ∈ posAttrs t', a.name ≠ q.1 := by
+          intro a ha han
+          obtain ⟨i, hi⟩ := List.getElem?_of_mem ha
+          exact hex ⟨i, a, hi, han⟩
+        rw [lookup_toHash_none hno, lookup_mvh_none hno]
+  refine ⟨{ obj := { typ := t', values := trim (requiredCount t') (posAttrs t') (den (posAttrs t') vs) }, ext := ext }, ?_, ?_, ?_, ?_, rfl⟩
+  · unfold newNamedX
+    simp only [hm, hc, hpf, if_true, hext]
+  · unfold equalsX sameTypeX
+    simp only [tyEq_refl, beq_self_eq_true, Bool.and_self]
+    rw [equalsWith_den hw.tailOpt hreq hk', hden', hden]
+    simp
+  · unfold equalsX sameTypeX
+    simp only [tyEq_refl, beq_self_eq_true, Bool.and_self]
+    rw [equalsWith_den hw.tailOpt hk' hreq, hden', hden]
+    simp
+  · simp only
+    rw [hden', hden]
+
+/-- objects compare equal exactly when their equality attributes are equal — instances of parameterized types included:
+    "the same type" is the same definition AND the same bindings of the type parameters (`sameTypeX`) -/
+theorem C17x_equality {o o' : PObj} (hw : WF o.obj.typ) (hw' : WF o'.obj.typ) (hv : Valid o.obj) (hv' : Valid o'.obj)
+    (hname : tyEq o.obj.typ o'.obj.typ = true → o'.obj.typ = o.obj.typ) :
+    equalsX o o' = .ok true ↔
+      ((sameTypeX o o' = true ∧ ∀ n ∈ eqAttrNames o.obj.typ, get o.obj n = get o'.obj n) ∨
+       (sameTypeX o o' = false ∧ includesType o.obj.typ = false ∧ includesType o'.obj.typ = false ∧
+          (eqAttrNames o.obj.typ).length = (eqAttrNames o'.obj.typ).length ∧
+          ∀ n ∈ eqAttrNames o.obj.typ, n ∈ eqAttrNames o'.obj.typ ∧ get o.obj n = get o'.obj n)) := by
+  obtain ⟨⟨t, vs⟩, ext⟩ := o
+  obtain ⟨⟨t', vs'⟩, ext'⟩ := o'
+  simp only at hw hw' hv hv' hname ⊢
+  unfold equalsX
+  by_cases hs : sameTypeX { obj := { typ := t, values := vs }, ext := ext } { obj := { typ := t', values := vs' }, ext := ext' } = true
+  · have hty : tyEq t t' = true := by
+      unfold sameTypeX at hs
+      simp only [Bool.and_eq_true] at hs
+      exact hs.1
+    have := hname hty
+    subst this
+    rw [hs, equalityWith_same hw hv hv']
+    simp
+  · have hf : sameTypeX { obj := { typ := t, values := vs }, ext := ext } { obj := { typ := t', values := vs' }, ext := ext' } = false := by
+      simpa using hs
+    rw [hf, equalityWith_cross hw hw' hv hv']
+    simp
+
+def lvP : Level :=
+  { id := 0, attrs := [{ name := "a", ty := .int, kind := .normal, value := none },
+                       { name := "p", ty := .opt .int, kind := .normal, value := some .undef }],
+    equality := none, includeType := true, serialization := none, params := [("p", .int)] }
+
+theorem wf_lvP : WF [lvP] :=
+  wf_noSerialization ⟨by decide, by
+    intro a ha
+    simp only [eachAttribute, lvP, List.map_nil, List.nil_append, List.any_nil, Bool.not_false, List.filter_cons,
+      if_true, List.filter_nil, List.mem_cons, List.not_mem_nil, or_false] at ha
+    rcases ha with rfl | rfl <;> intro hk <;> cases hk⟩ rfl
+
+/-- the known finding C17-tparam-explicit-undef, replayed in the model: `T = {type_parameters => {p => Integer}, a => Integer,
+    p => Optional[Integer]}`; `new(T, 1, undef)` is a `T`, its named twin `new(T, {a => 1, p => undef})` a `T[p => undef]`,
+    and the two are not Equal -/
+theorem C17x_pos_named_explicit_default : ¬ C17x_pos_named := by
+  intro h
+  have h1 : newPosX [lvP] [.int 1, .undef] = .ok { obj := { typ := [lvP], values := [.int 1] }, ext := [] } := by decide
+  obtain ⟨o', hn, he, -⟩ := h [lvP] [.int 1, .undef] _ (.hash "") wf_lvP h1
+  have h2 : newNamedX [lvP] (toHash (posAttrs [lvP]) [.int 1, .undef]) (.hash "") =
+      .ok { obj := { typ := [lvP], values := [.int 1] }, ext := [("p", .undef)] } := by decide
+  rw [h2] at hn
+  cases hn
+  have h3 : equalsX { obj := { typ := [lvP], values := [.int 1] }, ext := [] }
+      { obj := { typ := [lvP], values := [.int 1] }, ext := [("p", .undef)] } = .ok false := by decide
+  rw [h3] at he
+  cases he
+
+/-- hypotheses of `C17x_pos_named_partial` / `C17x_get` / `C17x_equality` on a parameterized type: a construction that BINDS
+    the parameter (`new(T, 1, 5)` is a `T[p => 5]`), its named twin, and an instance of another parameterized type of the
+    same definition (`T[p => 6]`): not Equal, although no equality attribute... is declared (all attributes compare) -/
+example : newPosX [lvP] [.int 1, .int 5] =
+    .ok { obj := { typ := [lvP], values := [.int 1, .int 5] }, ext := [("p", .int 5)] } := by decide
+example : NoParamDefault [lvP] [.int 1, .int 5] := by
+  intro q hq i a v hi han hv
+  have hp : posAttrs [lvP] = lvP.attrs := rfl
+  simp only [typeParams, lvP, List.nil_append, List.mem_cons, List.not_mem_nil, or_false] at hq
+  subst hq
+  rw [hp] at hi
+  rcases i with _ | _ | i
+  · simp [lvP] at hi; subst hi; simp at han
+  · simp [lvP] at hi hv; subst hi; subst hv; rfl
+  · simp [lvP] at hi
+example : sameTypeX { obj := { typ := [lvP], values := [.int 1, .int 5] }, ext := [("p", .int 5)] }
+    { obj := { typ := [lvP], values := [.int 1, .int 6] }, ext := [("p", .int 6)] } = false := by decide
+example : isParameterized [lvP] = true := by decide
+
+/-- each attribute reads back the value given or its default — also on a parameterized type -/
+theorem C17x_get {t : OType} {vs : List Val} {o : PObj} (hw : WF t) (hn : newPosX t vs = .ok o)
+    {i : Nat} {a : Attr} (ha : (posAttrs t)[i]? = some a) :
+    get o.obj a.name = .ok (some ((vs[i]?).getD a.implicitT)) := by
+  obtain ⟨ht, -, hreq, hden, -⟩ := newPosX_ok hw hn
+  obtain ⟨⟨t', vs'⟩, ext⟩ := o
+  simp only at ht hreq hden ⊢
+  subst ht
+  rw [get_pos hw.nodup hw.tailOpt hreq ha, hden, den_get ha]
+
+example : get { typ := [lvP], values := [.int 1, .int 5] } "p" = .ok (some (.int 5)) :=
+  C17x_get (i := 1) wf_lvP (by decide : newPosX [lvP] [.int 1, .int 5] =
+    .ok { obj := { typ := [lvP], values := [.int 1, .int 5] }, ext := [("p", .int 5)] }) rfl
 
 /-! ### the definition re-created from the InitHash of the type it defined -/
 
